@@ -355,6 +355,21 @@ func (r *Rng) fedBaseScenario() *fedScenario {
 		}
 		s.recvDest = Pick(r, []string{s.dest, "other.local.example"})
 	}
+	if r.Chance(8) {
+		// the receiver's own name differs from the signed destination only in letter case: server names are compared
+		// byte for byte, this request is addressed to somebody else
+		switch r.Intn(3) {
+		case 0:
+			s.recvDest = strings.ToUpper(s.dest)
+		case 1:
+			s.recvDest = strings.ToLower(s.dest)
+		case 2:
+			s.recvDest = strings.Title(s.dest) //nolint:staticcheck
+		}
+		if !s.localNil && r.Bool() {
+			s.local = []string{s.recvDest, "other.local.example"}
+		}
+	}
 	s.table = fedKeyEntry(s.signName, s.keyID, s.keyIdx, tsFarUnti, 0)
 	if r.Chance(30) {
 		s.table += "," + fedKeyEntry(Pick(r, fedNames), "ed25519:zz", (s.keyIdx+1)%4, tsFarUnti, 0)
